@@ -1,5 +1,6 @@
 import TypifyModel.Proofs.C10
 import TypifyModel.Proofs.C10Strings
+import TypifyModel.Proofs.C05Convert
 open TypifyModel.C10
 #print axioms table_ok
 #print axioms int_fits_tbl
@@ -14,3 +15,7 @@ open TypifyModel.C10S
 #print axioms string_formats_known
 #print axioms string_formats_functional
 #print axioms string_formats_uses
+#print axioms TypifyModel.C05C.convert_string_exact
+#print axioms TypifyModel.C05C.convert_string_uses_regress
+#print axioms TypifyModel.C05C.convert_string_format_ignores_validation
+#print axioms TypifyModel.C05C.convert_string_format_drops
